@@ -101,7 +101,10 @@ fn run_random<K: KeyT, V: ValT>(a: &Args) {
     let events = a.num("events", 200);
     let seed = a.num("seed", 1);
     emit(&mut out, &header::<K>(a, json!({"mode":"random"})));
-    for run in 0..runs {
+    // --first: index of the first run (hasher class / key universe are chosen by the run index, so a
+    // suite split over several files still walks through all of them)
+    let first = a.num("first", 0);
+    for run in first..first + runs {
         let mut w: World<K, V> = World::new(2, a.num("content-limit", 96) as usize);
         w.nolive = a.flag("par") || cfg!(miri);
         let hm = if a.m.contains_key("hm") { a.num("hm", 0) as u8 } else { (run % 3) as u8 };
@@ -145,7 +148,10 @@ fn run_faults<K: KeyT, V: ValT>(a: &Args) {
     let maxper = a.num("max-per-kind", 10);
     emit(&mut out, &header::<K>(a, json!({"mode":"faults"})));
     let mut seg = 0u32;
-    for si in 0..states {
+    // --first: index of the first sampled state, so that a suite split over several files still walks
+    // through all operation templates (the template is chosen by the state index)
+    let first = a.num("first", 0);
+    for si in first..first + states {
         let hm = (si % 3) as u8;
         let nkeys = [12u32, 24, 40][(si / 3 % 3) as usize];
         let mk = |sd: u64| gen::Gen {
@@ -426,7 +432,8 @@ fn run_tomb<K: KeyT, V: ValT>(a: &Args) {
     let seed = a.num("seed", 1);
     emit(&mut out, &header::<K>(a, json!({"mode":"tomb"})));
     let mut rng = SmallRng::seed_from_u64(seed.wrapping_mul(9176));
-    for run in 0..runs {
+    let first = a.num("first", 0);
+    for run in first..first + runs {
         let hm = [0u8, 0, 1, 2][(run % 4) as usize];
         let cap = [28usize, 56, 14, 112][(run / 4 % 4) as usize];
         let mut w: World<K, V> = World::new(2, 260);
@@ -582,7 +589,8 @@ fn run_meta<K: KeyT, V: ValT>(a: &Args) {
     let ty = if set { "set" } else { "map" };
     emit(&mut out, &header::<K>(a, json!({"mode":"meta"})));
     let mut rng = SmallRng::seed_from_u64(seed.wrapping_mul(424243));
-    for case in 0..cases {
+    let first = a.num("first", 0);
+    for case in first..first + cases {
         let hm = (case % 3) as u8;
         let zst = K::NAME == "zst";
         let universe = [10u32, 20, 40, 60][(case / 3 % 4) as usize];
